@@ -57,6 +57,9 @@ def qsv_equal(a, b):
   return True, ''
 
 
+ONE_SHOT = [False]   # hand calibrate() a one-shot iterator (the API takes any Iterable): the data may be walked only once
+
+
 def calibrate_seq(qt, spec, parts, prev=None):
   """parts: list of {sig key: dataset}; sessions chained through previous_calibration_result."""
   multi = len(spec.signatures) > 1
@@ -66,11 +69,15 @@ def calibrate_seq(qt, spec, parts, prev=None):
       ds = part.get(s['key'])
       if not ds:
         continue
-      res = qt.calibrate(ds, signature_key=s['key'] if multi else None, previous_calibration_result=res)
+      res = qt.calibrate((x for x in ds) if ONE_SHOT[0] else ds, signature_key=s['key'] if multi else None,
+                         previous_calibration_result=res)
   return res
 
 
 def run_case(ctx, case, rng):
+  ONE_SHOT[0] = bool(case % 5 == 3)
+  if ONE_SHOT[0]:
+    ctx.count('cases_with_one_shot_iterators')
   n_sub = 1 if rng.random() < 0.75 else int(rng.integers(2, 4))
   tied = None
   if case % 8 == 5:
